@@ -217,19 +217,19 @@ def run_fixmc_part(pid, tier, seed, binary, wd, results, info):
     return run_fixrev_part(pid, tier, seed, binary, wd, results, info, fb=False)
 
 
-def run_fixrev_part(pid, tier, seed, binary, wd, results, info, fb):
+def run_fixrev_part(pid, tier, seed, binary, wd, results, info, fb, panics=False):
     """The fixpoint engine across revisions (FixRev.tla; fb: the cycle_result / FallbackImmediate strategy):
     exhaustive small instances + simulated larger ones, every emitted behaviour replayed on salsa."""
     info = info or {"states": 0, "transitions": 0, "mc_models": [], "replayed_histories": 0, "replay_fetches_compared": 0,
                     "drift": 0, "drift_samples": [], "exhaustive": True}
-    mc = fixmc.run_fixrev(tier, wd, fb=fb)
+    mc = fixmc.run_fixrev(tier, wd, fb=fb, panics=panics)
     jobs = fixmc.replay_jobs_rev(mc, 6000 if tier == "quick" else 60000, seed, kind="fb" if fb else "fix")
-    r = seqcheck.run_family(binary, "mc-fixrevfb" if fb else "mc-fixrev", seed, 0, 0, wd, jobs=jobs)
+    r = seqcheck.run_family(binary, "mc-fixpanic" if panics else "mc-fixrevfb" if fb else "mc-fixrev", seed, 0, 0, wd, jobs=jobs)
     checked, wrong, drift = fixmc.compare(jobs, r["trace"])
     results.append(r)
     info["states"] += mc["distinct"]
     info["transitions"] += mc["generated"]
-    info["mc_models"].append({"spec": "specs/cycle/FixRev.tla", "family": "mc-fixrevfb" if fb else "mc-fixrev", "constants": mc["consts"],
+    info["mc_models"].append({"spec": "specs/cycle/FixRev.tla", "family": "mc-fixpanic" if panics else "mc-fixrevfb" if fb else "mc-fixrev", "constants": mc["consts"],
                               "strategy": "cycle_result (FallbackImmediate); the model reproduces salsa's history-dependent fallback results (known findings F3/F4): NoBadFb" if fb else "cycle_fn / cycle_initial",
                               "distinct_states": mc["distinct"], "states_generated": mc["generated"], "depth": mc["depth"],
                               "invariants": ["NoBadFb", "LocksQuiescent"] if fb else fixmc.REV_INVARIANTS, "leaf_histories_emitted": len(mc["replays"]),
@@ -238,8 +238,8 @@ def run_fixrev_part(pid, tier, seed, binary, wd, results, info, fb):
     info["replay_fetches_compared"] += checked
     info["drift"] += len(drift)
     info["drift_samples"] += drift[:3]
-    log(f"[{pid}] MC fixrev{' (fallback strategy)' if fb else ''}: {mc['distinct']} states (exhaustive + simulated configurations {mc['consts']}), {len(mc['replays'])} behaviours, "
-        f"{len(jobs)} replayed on salsa, {checked} fetches compared, value mismatches={len(wrong)}, "
+    log(f"[{pid}] MC fixrev{' (fallback strategy)' if fb else ''}{' (user panics)' if panics else ''}: {mc['distinct']} states (exhaustive + simulated configurations {mc['consts']}), {len(mc['replays'])} behaviours, "
+        f"{len(jobs)} replayed on salsa, {checked} fetches compared, outcome/value mismatches={len(wrong)}, "
         f"execution-sequence drift={len(drift)} ({mc['wall_s']:.0f}s)")
     if drift:
         log(f"DRIFT: salsa's sequence of body executions differs from the FixRev model's in {len(drift)} fetches "
@@ -393,7 +393,7 @@ def run_fault(pid, tier, seed, replay):
         else:
             results.append(seqcheck.run_family(binary, rp.get("family", "replay"), seed, 0, 0, wd, jobs=jobs))
         return finish(pid, tier, seed, results, cfg, known, wd, t0, mc=None)
-    nprog = 5 if tier == "quick" else 60
+    nprog = 10 if tier == "quick" else 60
     cap = 30 if tier == "quick" else 100000
     import gen as G
     crash_points = 0
@@ -436,6 +436,8 @@ def run_fault(pid, tier, seed, replay):
     results += run_par_families(binary, ["parpanic"], tier, seed, wd)
     extra = {"crash_points_in_base_histories": sum(r.get("crash_points_total", 0) for r in results),
              "exhaustive": tier == "thorough"}
+    # the fixpoint engine with user panics (FixRev.tla, MaxPanics > 0): every behaviour of the model replayed
+    extra.update(run_fixrev_part(pid, tier, seed, binary, wd, results, None, fb=False, panics=True))
     return finish(pid, tier, seed, results, cfg, known, wd, t0, mc=extra)
 
 
